@@ -272,6 +272,7 @@ pub fn dispatch(args: &Args) -> i32 {
             let mut parts = vec![part_trees(args, &pls, false), part_trees(args, &pls, true), part_random(args, &pls), part_chains_exh(args, &pls, false)];
             parts.push(crate::extra::part_unparse_identity(args));
             parts.push(crate::extra::part_serde(args));
+            parts.push(crate::calc::part_derived_roundtrip(args));
             finish(args, "C12", parts, vec![], json!({
                 "functions": ["deep::detail::unparse_raw", "FlatEx::unparse", "DeepEx::unparse", "FlatEx::from_deepex", "serde::{Serialize,Deserialize} for FlatEx"],
                 "assumptions": ["constants folded at parse time print in a reserved pattern that conforms to NumberMatcher (the property quantifies over literals whose Debug form is a literal of the matcher)"],
@@ -282,6 +283,7 @@ pub fn dispatch(args: &Args) -> i32 {
             let pls = ["flat_vec", "flat_iter", "flat_wo_vec", "flat_wo_iter"];
             let mut parts = vec![part_trees(args, &pls, false), part_random(args, &pls), part_chains(args, &["flat_vec", "flat_wo_iter"]), part_chains_exh(args, &["flat_vec", "flat_wo_iter"], false)];
             parts.push(crate::extra::part_clone_counts(args));
+            parts.push(crate::calc::part_derived_consuming(args));
             finish(args, "C15", parts, vec![], json!({
                 "functions": ["flat::detail::eval_flatex_consuming_vars", "FlatEx::eval_vec", "FlatEx::eval_iter", "flat::detail::eval_numbers"],
                 "assumptions": ["the consuming result is compared with the reference tree, which C01 ties to the borrowing evaluation"],
@@ -292,8 +294,20 @@ pub fn dispatch(args: &Args) -> i32 {
         "C06" => crate::extra::c06(args),
         "C07" => crate::extra::c07(args),
         "C11" => crate::extra::c11(args),
+        "C05" => crate::calc::c05(args),
+        "C09" => crate::calc::c09(args),
+        "C10" => crate::calc::c10(args),
         "replay" => crate::extra::replay(args),
         "floatop" => crate::floatop::run(args),
+        "valtable" => {
+            use exmex::MakeOperators;
+            let ops = exmex::ValOpsFactory::<i32, f64>::make();
+            let v: Vec<Value> = ops.iter().enumerate().map(|(i, o)| json!({"idx": i, "repr": o.repr(), "bin": o.has_bin(), "unary": o.has_unary(), "konst": o.constant().is_some()})).collect();
+            let fo = exmex::FloatOpsFactory::<f64>::make();
+            let f: Vec<Value> = fo.iter().enumerate().map(|(i, o)| json!({"idx": i, "repr": o.repr(), "bin": o.has_bin(), "unary": o.has_unary(), "konst": o.constant().is_some()})).collect();
+            write_out(args, &json!({"val": v, "float": f}));
+            0
+        }
         other => {
             eprintln!("unknown command {other}");
             64
